@@ -200,18 +200,24 @@ Qed.
 
 (* ================= CG: simultaneous ChannelSink.Process calls, k free slots, nobody draining ================= *)
 Record g_ok (c : gcase) : Prop := {
-  gk_hung : go_hung (g_obs c) = 0%N;                                                        (* every call returned *)
-  gk_sent : (countN 0 (go_arms (g_obs c)) <= N.min (g_free c) (g_n c))%N;                   (* at most k deliveries *)
-  gk_all : (countN 0 (go_arms (g_obs c)) + countN 2 (go_arms (g_obs c)) + go_hung (g_obs c) = g_n c)%N;   (* everybody else: the timeout error *)
+  gk_hung : go_hung (g_obs c) = 0%N /\ lenN (go_calls (g_obs c)) = lenN (g_ctxs c);        (* every call returned *)
+  gk_sent : (countN 0 (map fst (go_calls (g_obs c))) <= N.min (g_free c) (lenN (g_ctxs c)))%N;   (* at most k deliveries *)
+  (* everybody else: the error of whichever is shorter for that caller, timeout or its own context *)
+  gk_arms : forall ctx r, In (ctx, r) (combine (g_ctxs c) (go_calls (g_obs c))) -> fst r = 0%N \/ fst r = g_err_arm (g_timeout c) ctx;
   gk_delivered : go_delivered_ok (g_obs c) = true;
   gk_early : go_early (g_obs c) = false;
-  gk_latency : (go_latency (g_obs c) <= 50 * (g_timeout c + 20000))%Z
+  (* no caller blocked longer than the shorter of the two (+ slack), measured from its own entry *)
+  gk_latency : forall ctx r, In (ctx, r) (combine (g_ctxs c) (go_calls (g_obs c))) -> (snd r <= g_bound (g_timeout c) ctx + g_slack c)%Z
 }.
 Theorem check_g_spec c : check_g c = [] <-> g_ok c.
 Proof.
-  unfold check_g. rewrite !app_nil_both, !ite_nil, ite_nil', N.eqb_eq, andb_true_iff, N.leb_le, N.eqb_eq, Z.leb_le. split.
-  - intros [H1 [[H2 H3] [H4 [H5 H6]]]]. constructor; assumption.
-  - intros [H1 H2 H3 H4 H5 H6]. repeat split; assumption.
+  unfold check_g. rewrite !app_nil_both, !ite_nil, ite_nil', !andb_true_iff, !N.eqb_eq, N.leb_le, !forallb_forall. split.
+  - intros [[H1 H1'] [[H2 H3] [H4 [H5 H6]]]]. constructor; try assumption; try (split; assumption).
+    + intros ctx r Hin. specialize (H3 _ Hin). cbn [fst snd] in H3. apply orb_true_iff in H3 as [H3|H3]; apply N.eqb_eq in H3; auto.
+    + intros ctx r Hin. specialize (H6 _ Hin). cbn [fst snd] in H6. apply Z.leb_le, H6.
+  - intros [[H1 H1'] H2 H3 H4 H5 H6]. repeat split; try assumption.
+    + intros [ctx r] Hin. cbn [fst snd]. apply orb_true_iff. destruct (H3 ctx r Hin) as [H|H]; [left|right]; apply N.eqb_eq, H.
+    + intros [ctx r] Hin. cbn [fst snd]. apply Z.leb_le, (H6 ctx r Hin).
 Qed.
 
 (* ================= CP: FileSink.Process under part-way failing writes ================= *)
